@@ -318,8 +318,12 @@ def replay(W, behaviour, observe_every=True):
                 elif op == 'rebind':
                     seq += 1
                     sk = find_sub(W, key, a)
-                    s = run(lambda: key.bind(sk, usage=set(W.tags[tag][0]), policy_uri='urn:seq:%d' % seq, created=created))
-                    sk |= s
+                    if a == 'S2':
+                        # the other way of giving a subkey a new binding: adding the subkey object (which carries its earlier binding) again
+                        run(lambda: key.add_subkey(sk, usage=set(W.tags[tag][0]), policy_uri='urn:seq:%d' % seq, created=created))
+                    else:
+                        s = run(lambda: key.bind(sk, usage=set(W.tags[tag][0]), policy_uri='urn:seq:%d' % seq, created=created))
+                        sk |= s
                 elif op == 'revoke_sub':
                     seq += 1
                     sk = find_sub(W, key, a)
